@@ -283,9 +283,11 @@ class FlagByExactValueProvider(BaseFlagProvider):
             if data < 0 or data > flag_mask:
                 raise OutOfRangeLoadError(0, flag_mask, data)
 
-            # data already has been validated for all edge cases
-            # so enum lookup cannot raise an error
-            return enum(data)
+            try:
+                return enum(data)
+            except ValueError:
+                # bits presented only inside multi-bit members can not be used alone
+                raise OutOfRangeLoadError(0, flag_mask, data)
 
         return flag_loader
 
